@@ -416,3 +416,28 @@ Qed.
 
 Lemma fini_empty old c dt kg : fini old c dt kg empty = Some [].
 Proof. reflexivity. Qed.
+
+(** ** the property in terms of LIVE keys: the destructor column of a reachable allocator state *)
+From MT Require Import Tls.TlsKeysModel Tls.TlsKeysProofs.
+Theorem fini_live tagged os s h rs c : 0 < c_leaf c -> 0 <= c_pool c ->
+  seq_hist tagged kinit [] os = Some (s, h, rs) -> forall t, reach c t ->
+  exists evs, fini false c (kdtor s) (kgen s) t = Some evs /\
+    (forall k v, In (k, v) (calls_of evs) -> In k h /\ kdtor s k <> 0 /\ get (kgen s) t k = Some v) /\
+    (forall k v, In k h -> kdtor s k <> 0 -> get (kgen s) t k = Some v -> v <> 0 ->
+                 count_occ zz_eq_dec (calls_of evs) (k, v) = 1%nat) /\
+    (forall k v, ~ In k h -> ~ In (k, v) (calls_of evs)) /\
+    NoDup (map fst (calls_of evs)).
+Proof.
+  intros Hl Hp Hh t Hr.
+  pose proof (seq_history_dead_no_dtor tagged os s h rs Hh) as Hdead.
+  destruct (seq_history_distinct tagged os s h rs Hh) as (_ & Hin & _).
+  destruct (fini_property c Hl Hp (kdtor s) (kgen s) t Hr) as (evs & Hf & H1 & H2 & H3 & _).
+  exists evs. split; [exact Hf|].
+  assert (Hlive : forall k v, In (k, v) (calls_of evs) -> In k h).
+  { intros k v Hc. destruct (H1 k v Hc) as (_ & Hd & _).
+    destruct (in_dec Z.eq_dec k h) as [Hi|Hn]; [exact Hi|]. exfalso. apply Hd. apply Hdead. exact Hn. }
+  split; [|split; [|split; [|exact H3]]].
+  - intros k v Hc. destruct (H1 k v Hc) as (_ & Hd & Hg). split; [eapply Hlive; exact Hc|]. split; assumption.
+  - intros k v Hk Hd Hg Hv. apply H2; try assumption. apply Hin. exact Hk.
+  - intros k v Hn Hc. apply Hn. eapply Hlive. exact Hc.
+Qed.
